@@ -978,16 +978,16 @@ func gen(out *vc.Out, r *vc.Rand, thorough bool) {
 	var jobs []*job
 	genWindow(&jobs)
 	if thorough {
-		genExhaustive(&jobs, 3, 2, 0, 3, true)
-		genExhaustive(&jobs, 3, 2, 0, 4, false)
-		genExhaustive(&jobs, 3, 2, 2, 3, false)
-		genRandom(&jobs, r.Fork(), 150000)
-		genPar(&jobs, r.Fork(), 20000)
+		genExhaustive(&jobs, 3, 2, 0, 4, true)
+		genExhaustive(&jobs, 3, 2, 2, 3, true)
+		genExhaustive(&jobs, 2, 2, 1, 4, false)
+		genRandom(&jobs, r.Fork(), 400000)
+		genPar(&jobs, r.Fork(), 60000)
 	} else {
-		genExhaustive(&jobs, 3, 2, 0, 3, false)
-		genExhaustive(&jobs, 3, 1, 2, 2, false)
-		genRandom(&jobs, r.Fork(), 6000)
-		genPar(&jobs, r.Fork(), 600)
+		genExhaustive(&jobs, 3, 2, 0, 3, true)
+		genExhaustive(&jobs, 3, 2, 2, 2, true)
+		genRandom(&jobs, r.Fork(), 20000)
+		genPar(&jobs, r.Fork(), 2000)
 	}
 	runAll(out, jobs)
 }
